@@ -319,6 +319,8 @@ def shape_rules(ctx, rid, core, G, scope_fns):
                     allowed = gt.get((variant, prev))
                     if allowed is False:
                         viol.add(prev)
+                elif x[0] not in ("nl", "sp", "ws", "when", "case"):
+                    prev = None   # text the interpreter does not model: what precedes the next line break is unknown
         ctx.inst(rid, "%s[%s]#line-breaks" % (short, variant), not viol,
                  "line break emitted after %s, where the grammar admits only spaces" % sorted(viol) if viol else "every emitted line break sits in a gap the grammar admits", loc)
     # record entries
